@@ -94,3 +94,31 @@ package graph
 //@   loop 5 (j) modifies newNodes[*]
 //@   loop 5 (j) invariant fresh(newNodes) && keptNodes(g, nodes, newNodes, g.NumNodes()) && (forall x int :: haskey(rmNodes, x) <==> inNodes(nodes, len(nodes), x)) && (forall n int, j int :: haskey(rmEdges, Edge{n, j}) <==> inEdges(edges, len(edges), n, j)) && (forall x int :: haskey(oldToNew, x) <==> (0 <= x && x < g.NumNodes() && !inNodes(nodes, len(nodes), x))) && (forall x int :: haskey(oldToNew, x) ==> 0 <= oldToNew[x] && oldToNew[x] < len(newNodes) && newNodes[oldToNew[x]].oldNode == x) && listsSep(newNodes) && 0 <= i && i < len(newNodes) && newNodes[i].oldNode == oldNode && (forall a in 0..i :: nodeEdges(g, nodes, edges, newNodes, a, len(g.Out(newNodes[a].oldNode)))) && nodeEdges(g, nodes, edges, newNodes, i, j) && (forall a in i+1..len(newNodes) :: isnil(newNodes[a].out) && isnil(newNodes[a].oldEdges))
 //@   assigns nothing
+
+// SubgraphKeep: subgraph node i stands for nodes[i]; the adjacency of node i
+// is the subsequence of `edges` that leave nodes[i], in the order given. The
+// position of edges[q] in its node's list is the number of earlier edges of
+// the same node (cntFrom), so no existential is needed.
+//@ spec cntFrom(edges []Edge, k int, n int) int = k <= 0 ? 0 : cntFrom(edges, k-1, n) + (edges[k-1].Node == n ? 1 : 0)
+//@ spec distinctInts(a []int) bool = forall i in 0..len(a), j in 0..len(a) :: i < j ==> a[i] != a[j]
+//@ spec keepReq(g Graph, nodes []int, edges []Edge) bool =
+//@     (forall q in 0..len(nodes) :: 0 <= nodes[q] && nodes[q] < g.NumNodes()) && distinctInts(nodes) &&
+//@     (forall q in 0..len(edges) :: inNodes(nodes, len(nodes), edges[q].Node) && 0 <= edges[q].Edge && edges[q].Edge < len(g.Out(edges[q].Node)) && inNodes(nodes, len(nodes), g.Out(edges[q].Node)[edges[q].Edge]))
+//@ spec keptUpTo(g Graph, nodes []int, edges []Edge, NN []listSubgraphNode, K int) bool =
+//@     (forall i in 0..len(NN) :: NN[i].oldNode == nodes[i] && len(NN[i].out) == cntFrom(edges, K, nodes[i]) && len(NN[i].oldEdges) == cntFrom(edges, K, nodes[i])) &&
+//@     (forall q in 0..K, i in 0..len(NN) @[edges[q], NN[i]] :: nodes[i] == edges[q].Node ==> 0 <= cntFrom(edges, q, nodes[i]) && cntFrom(edges, q, nodes[i]) < cntFrom(edges, K, nodes[i])) &&
+//@     (forall q in 0..K, i in 0..len(NN) @[edges[q], NN[i]] :: nodes[i] == edges[q].Node ==> NN[i].oldEdges[cntFrom(edges, q, nodes[i])] == edges[q].Edge && 0 <= NN[i].out[cntFrom(edges, q, nodes[i])] && NN[i].out[cntFrom(edges, q, nodes[i])] < len(NN) && nodes[NN[i].out[cntFrom(edges, q, nodes[i])]] == g.Out(edges[q].Node)[edges[q].Edge])
+
+//@ func SubgraphKeep
+//@   model int
+//@   requires keepReq(g, nodes, edges)
+//@   ensures [underlying] ptrcast(result, listSubgraph).underlying == g
+//@   ensures [shape]      len(ptrcast(result, listSubgraph).nodes) == len(nodes)
+//@   ensures [exact]      keptUpTo(g, nodes, edges, ptrcast(result, listSubgraph).nodes, len(edges))
+//@   loop 1 (newNode) invariant (forall x int :: haskey(oldToNew, x) <==> inNodes(nodes, newNode, x)) && (forall x int :: haskey(oldToNew, x) ==> 0 <= oldToNew[x] && oldToNew[x] < newNode && nodes[oldToNew[x]] == x)
+//@   loop 2 (i) modifies newNodes[*]
+//@   loop 2 (i) invariant (forall x int :: haskey(oldToNew, x) <==> inNodes(nodes, len(nodes), x)) && (forall x int :: haskey(oldToNew, x) ==> 0 <= oldToNew[x] && oldToNew[x] < len(nodes) && nodes[oldToNew[x]] == x) && len(newNodes) == len(nodes) && fresh(newNodes) && (forall a in 0..i :: newNodes[a].oldNode == nodes[a]) && (forall a in 0..len(newNodes) :: isnil(newNodes[a].out) && isnil(newNodes[a].oldEdges))
+//@   loop 3 (oldEdge) forget
+//@   loop 3 (oldEdge) modifies newNodes[*]
+//@   loop 3 (oldEdge) invariant len(newNodes) == len(nodes) && fresh(newNodes) && (forall x int :: haskey(oldToNew, x) <==> inNodes(nodes, len(nodes), x)) && (forall x int :: haskey(oldToNew, x) ==> 0 <= oldToNew[x] && oldToNew[x] < len(nodes) && nodes[oldToNew[x]] == x) && listsSep(newNodes) && keptUpTo(g, nodes, edges, newNodes, _k)
+//@   assigns nothing
